@@ -19,6 +19,10 @@ Translated regions (located by anchor + brace matching, never by line number):
                      return, alm_converged / exit / status chain, Σ hand-back, penalty update,
                      tolerance update, error swap)
 
+Also pinned (regex): `ALMSolver::stop()` = `{ stop_signal.stop(); inner_solver.stop(); }`, the data
+member `AtomicStopSignal stop_signal;`, and that alm.tpp uses `stop_signal` exactly once — the
+`stop_requested()` read after the inner call, which becomes the oracle parameter `stop_requested` of almIter.
+
 Oracles (parameters of the generated definitions): the clock (`out_of_time`; every statement that
 only computes times is dropped — the list is explicit below and anything else that cannot be
 translated raises TranslationError), the problem (`f0`, `g0` for initialize_penalty, `projMult`
@@ -108,6 +112,8 @@ class Emitter7(Emitter):
         self.on_return = None      # lean expr of returned value -> lean term
         self.helper_calls = {}     # dotted callee -> fn(args_ast, em) -> [(name, ty, lean_rhs)]
         self.decl_default = {}     # (type_text) -> lean term for `T name;`
+        self.stop_oracle = None    # lean name of the stop-flag oracle (loop body after the inner call only)
+        self.stop_reads = 0        # number of `stop_signal.stop_requested()` reads translated
 
     # -- expressions ---------------------------------------------------------------------
     def coerce(self, e, t, want):
@@ -166,6 +172,10 @@ class Emitter7(Emitter):
                 raise TranslationError(f'.{f[2]}() on non-vector')
             self.nat_lits.add(0)
             return f'(redux {"emax" if f[2] == "maxCoeff" else "emin"} (0 : α) {v})', 'S'
+        if d == 'stop_signal.stop_requested' and not args and self.stop_oracle is not None:
+            # ALMSolver's own AtomicStopSignal, read once per loop pass: an oracle bit
+            self.stop_reads += 1
+            return self.stop_oracle, 'B'
         if f[0] == 'id' and len(args) == 1 and a[3] is None:
             # Eigen coefficient access `v(k)`
             try:
@@ -551,8 +561,25 @@ def main(out_path):
     init_penalty(1, 'initializePenaltyOcp',
                  'alm-helpers.tpp :: ALMHelpers::initialize_penalty (TypeErasedControlProblem)', False)
 
+    # ---- alm.hpp: ALMSolver::stop() and the solver's own stop flag ----------------------------
+    # `void stop() { stop_signal.stop(); inner_solver.stop(); }` — sets ALM's flag, forwards to the
+    # inner solver; `AtomicStopSignal stop_signal;` is a data member; nothing else in the class touches it
+    # (AtomicStopSignal has no reset: gen_c19 pins its member functions).
+    cls_flat = ' '.join(alm_cls.split())
+    if not re.search(r'void stop\(\) \{ stop_signal\.stop\(\); inner_solver\.stop\(\); \}', cls_flat):
+        raise TranslationError('ALMSolver::stop() is not `{ stop_signal.stop(); inner_solver.stop(); }`')
+    if len(re.findall(r'\bAtomicStopSignal stop_signal;', cls_flat)) != 1:
+        raise TranslationError('ALMSolver: data member `AtomicStopSignal stop_signal;` not found')
+    if len(re.findall(r'\bstop_signal\b', cls_flat)) != 2:
+        raise TranslationError('ALMSolver: stop_signal is used outside stop() / its declaration')
+    regions['almStop'] = {'stop': 'stop_signal.stop(); inner_solver.stop();'}
+
     # ---- alm.tpp: operator() ---------------------------------------------------------------
     _, op = cp.find_region(alm, r'ALMSolver<InnerSolverT>::operator\(\)\s*\(')
+    if len(re.findall(r'\bstop_signal\b', alm)) != 1 or \
+            len(re.findall(r'\bstop_signal\s*\.\s*stop_requested\s*\(\s*\)', op)) != 1:
+        raise TranslationError('alm.tpp: expected exactly one use of stop_signal, a stop_requested() read '
+                               'in operator()')
 
     # (a) `if (params.max_iter == 0) return {.status = SolverStatus::MaxIter};`
     m = re.search(r'if\s*\(\s*params\.max_iter\s*==\s*0\s*\)\s*return\s*\{\s*\.status\s*=\s*'
@@ -752,7 +779,8 @@ def main(out_path):
     env.update({'ps.status': ('ps_status', 'E'), 'ps.ε': ('ps_eps', 'S'), 'ps': ('ps', 'S_'),
                 's': ('s', 'T'), 'm': ('m', 'N'), 'i': ('i', 'N'), 'has_Σ': ('has_Sig', 'B'),
                 'Σ': ('Sig', 'V'), 'out_of_iter': ('out_of_iter', 'B'),
-                'out_of_time': ('out_of_time', 'B'), 'Σ_curr': ('Sig_curr', 'V'),
+                'out_of_time': ('out_of_time', 'B'), 'stop_requested': ('stop_requested', 'B'),
+                'Σ_curr': ('Sig_curr', 'V'),
                 'error': ('error', 'V'), 'error_old': ('error_old', 'V'),
                 'norm_e': ('norm_e', 'S'), 'norm_e_old': ('norm_e_old', 'S'), 'ε': ('eps', 'S')})
     em = Emitter7(lambda d: env.get(d), enum_values=enumv)
@@ -765,6 +793,7 @@ def main(out_path):
         xs = [em_.expr(a, t)[0] for a, t in zip(args[1:], tys)]
         return [('Σ_curr', 'V', '(updatePenaltyWeights params ' + ' '.join(xs) + ')')]
     em.helper_calls = {'Helpers::update_penalty_weights': (h_upd, lambda args: [dotted(args[7])])}
+    em.stop_oracle = 'stop_requested'
     em.on_return = lambda e: f'IterOut.done {e} {em.lookup("Σ")[0]}'
     em.ret_type = None
     em.out_types = {}
@@ -772,6 +801,7 @@ def main(out_path):
     plist = [('params', 'params', 'ALMParams α'), ('accAdd', 'accAdd', 'A → S → A'),
              ('m', 'm', 'N'), ('i', 'i', 'N'), ('has_Σ', 'has_Sig', 'B'), ('Σ', 'Sig', 'V'),
              ('out_of_iter', 'out_of_iter', 'B'), ('out_of_time', 'out_of_time', 'B'),
+             ('stop_requested', 'stop_requested', 'B'),
              ('ps.status', 'ps_status', 'E'), ('ps.ε', 'ps_eps', 'S'), ('ps', 'ps', 'S_'),
              ('Σ_curr', 'Sig_curr', 'V'), ('error', 'error', 'V'), ('error_old', 'error_old', 'V'),
              ('norm_e', 'norm_e', 'S'), ('norm_e_old', 'norm_e_old', 'S'), ('s', 's', 'T'),
@@ -782,11 +812,18 @@ def main(out_path):
     def final():
         return 'IterOut.cont ⟨' + ', '.join(em.lookup(o)[0] for o in outs) + '⟩'
     body = em.stmts(ss, final)
+    if em.stop_reads != 1:
+        raise TranslationError(f'loop body after the inner call reads the stop flag {em.stop_reads} times '
+                               f'(expected once)')
+    if re.search(r'\bstop_signal\b', pre_txt):
+        raise TranslationError('loop body before the inner call uses stop_signal')
     ps_ = ' '.join(f'({l} : {lean_ty(t)})' for _, l, t in plist)
     defs.append('/-- alm.tpp, loop body after the inner solve (`error` already holds the slack error '
-                'the inner solver wrote; `ps` its statistics; `out_of_time` the clock oracle): '
-                'accounting, Interrupted return, termination test and status chain, Σ hand-back, '
-                'penalty / tolerance update, error swap. -/\n'
+                'the inner solver wrote; `ps` its statistics; `out_of_time` the clock oracle; '
+                '`stop_requested` the value `stop_signal.stop_requested()` reads there — ALM\'s own stop '
+                'flag, set by `ALMSolver::stop()`): '
+                'accounting, Interrupted return, termination test (incl. the pending stop request) and '
+                'status chain, Σ hand-back, penalty / tolerance update, error swap. -/\n'
                 f'def almIter {ps_} : IterOut α A :=\n' + _indent(body) + '\n')
     lits |= em.nat_lits
     regions['almIter'] = {'hash': cp.ast_hash(ss)}
